@@ -79,7 +79,7 @@ W = {"open": 6, "rpc": 3, "consume": 1, "deliver": 1, "get": 0.5, "return": 0.3,
 
 def gen(tier, seed):
     rng = Rng(seed * 61 + 18)
-    n = 400 if tier == "quick" else 8000
+    n = 1500 if tier == "quick" else 8000
     cases = []
     for i in range(n):
         s = Session(rng, weights=W, chmax=rng.choice([2, 3, 6]), bound=rng.choice([1, 2, 4]), via_stream=0.2)
